@@ -79,6 +79,8 @@ func (ex *Exec) runScheduled(fn *ssa.Function) {
 	var escaped interface{}
 	defer func() {
 		ex.abortAll()
+		// outcomes recorded after the scheduler is gone (a panic that escapes the harness) still need the schedule
+		ex.lastPauses = append([]PausePoint{}, s.pauses...)
 		ex.sched = nil
 	}()
 	for {
